@@ -85,7 +85,7 @@ impl Check for C09 {
     }
     fn decode(&self, tape: &[u8], _stream: usize) -> Value {
         let mut t = Tape::new(tape);
-        let file = *t.pick(&["/app/src/gen.js", "gen.js", "/a b/ñ/gen file.js", "./rel/x.y.js", "C:\\\\dir\\\\win.js", "/deep/a/b/c/d/e.mjs", "noext", "/app/lib/issue#12.js", "/app/c#/string-utils.js", "/app/a.mjs?iitm=true", "/app/%41/b c.js", "/app/back\\slash.js", "/app/qu\"ote\\x.js", "/app/caf\u{e9}/\u{540d}\u{524d}.js", "/app/tab\there.js"]);
+        let file = *t.pick(&["/app/src/gen.js", "gen.js", "/a b/ñ/gen file.js", "./rel/x.y.js", "C:\\\\dir\\\\win.js", "/deep/a/b/c/d/e.mjs", "noext", "/app/lib/issue#12.js", "/app/c#/string-utils.js", "/app/a.mjs?iitm=true", "/app/%41/b c.js", "/app/back\\slash.js", "/app/qu\"ote\\x.js", "/app/caf\u{e9}/\u{540d}\u{524d}.js", "/app/tab\there.js", "<anonymous>", "<stdin>.js", "[eval]", "evalmachine.<anonymous>"]);
         let comments = t.flag();
         // the input carries no map reference: with chaining on, the plain rewrite map must be emitted all the same
         let chain = t.flag();
@@ -424,6 +424,10 @@ impl Check for C10 {
         if !src.ends_with('\n') {
             src.push('\n');
         }
+        if t.chance(5) {
+            // a minified bundle: the program starts beyond column 65535 of its first line
+            src = format!("var banner = \"{}\"; {}", "x".repeat(66_000), src);
+        }
         let (_, orig_json) = gen_original_map(&mut t, &src);
         let orig_text = orig_json.to_string();
         let b64 = smap::encode_base64(orig_text.as_bytes());
@@ -498,6 +502,8 @@ impl Check for C10 {
                 let lit = match kind {
                     "lookalike-string" => format!("var lookalike = \"{text}\";"),
                     "lookalike-regex" => format!("var lookalike = /{}/;", text.replace('/', "\\/")),
+                    // (sometimes a multi-line template with the text at the start of a line: what a build tool's own source holds)
+                    _ if t.flag() => format!("var lookalike = `generated code\n{text}`;"),
                     _ => format!("var lookalike = `{text}`;"),
                 };
                 lookalike = Some(lit.clone());
@@ -517,11 +523,13 @@ impl Check for C10 {
         let pad = if !comment.is_empty() && !comment.contains('\n') && comment.starts_with("//") && t.chance(40) { " \t" } else { "" };
         let src = format!("{src}{before}");
         let with_ref = if comment.is_empty() { format!("{src}{after}") } else { format!("{src}{comment}{pad}\n{after}") };
+        // an earlier rewrite on the same thread (a file that stays unmodified and refers to a map of its own) must not matter
+        let warmup = t.chance(80);
         let src = format!("{src}{after}");
         let tags: Vec<&str> = p.tags.iter().copied().collect();
         json!({
             "src": with_ref, "srcNoRef": src, "cfg": cfg.json, "file": file, "files": files, "kind": kind, "usable": usable, "expectRead": expect_read,
-            "orig": orig_json, "lookalike": lookalike, "tags": tags, "parentNone": false
+            "orig": orig_json, "lookalike": lookalike, "tags": tags, "parentNone": false, "warmup": warmup
         })
     }
     fn rule(&self) -> String {
@@ -542,6 +550,11 @@ impl Check for C10 {
         let classes = vec![format!("ref:{kind}"), format!("chain:{}", cfg.chain), format!("comments:{}", cfg.comments)];
         let reader = crate::props_more::reader_from_case(case);
         let config = rw::make_config(&cfg.json);
+        if case["warmup"] == json!(true) {
+            let decoy_map = r#"{"version":3,"sources":["decoy.ts"],"names":["decoyName"],"mappings":"AAAAA;AACA;AACA;AACA"}"#;
+            let decoy = format!("var k = 'only literals' + 'here';\n//# sourceMappingURL=data:application/json;base64,{}\n", smap::encode_base64(decoy_map.as_bytes()));
+            let _ = rw::rewrite(&config, &decoy, "/app/dist/decoy.js", &MemReader::default());
+        }
         let out = rw::rewrite(&config, &src, &file, &reader);
         let content = match &out {
             rw::Outcome::Ok(v) if v["metrics"]["status"] == json!("modified") => v["content"].as_str().unwrap_or("").to_string(),
